@@ -2003,3 +2003,46 @@ def gen_amp_shape():
         return ('ampshape', False, f'translator: unsupported {e}')
     return ('ampshape: statements of TrajectoryMetrics.speed, amplitudes (signs, cyclic comparison with the next frame, first and last split dropped, array_split at '
             'the following index, one sum per piece) and vibration_amplitude (standard deviation of all amplitudes, in Angstrom) are the ones Model.C14 transcribes', True, 'ok')
+
+
+# ---------------------------------------------------------------- unit: Collective.site_pair_count_matrix (C12)
+def coll_matrix_unit():
+    tree = _parse('collective.py')
+    f = _find_func(tree, 'Collective', 'site_pair_count_matrix')
+    st = _stmts(f)
+    src = [ast.unparse(s) for s in st]
+    if len(st) != 6 or src[:4] != ['labels = self.sites.labels', 'coll_jumps = self.coll_jumps', 'site_pairs = self.site_pair_count_matrix_labels()',
+                                   'site_pair_count_matrix = np.zeros((len(site_pairs), len(site_pairs)), dtype=int)'] or src[5] != 'return site_pair_count_matrix':
+        raise Unsupported('site_pair_count_matrix: ' + ' | '.join(src[:4] + src[5:])[:400])
+    loop = st[4]
+    if not (isinstance(loop, ast.For) and ast.unparse(loop.target) == '((start_i, stop_i), (start_j, stop_j))' and ast.unparse(loop.iter) == 'coll_jumps'):
+        raise Unsupported('site_pair_count_matrix: loop header ' + ast.unparse(loop.target))
+    body = [ast.unparse(s) for s in loop.body]
+    want = ['name_start_i = labels[start_i]', 'name_stop_i = labels[stop_i]', 'name_start_j = labels[start_j]', 'name_stop_j = labels[stop_j]',
+            'i = site_pairs.index((name_start_i, name_stop_i))', 'j = site_pairs.index((name_start_j, name_stop_j))', 'site_pair_count_matrix[i, j] += 1']
+    if body != want:
+        k = next((i for i, (a, b) in enumerate(zip(body, want)) if a != b), min(len(body), len(want)))
+        raise Unsupported('site_pair_count_matrix loop statement %d: %s' % (k, body[k][:140] if k < len(body) else '<missing>'))
+    lb = [ast.unparse(s) for s in _stmts(_find_func(tree, 'Collective', 'site_pair_count_matrix_labels'))]
+    if lb != ['labels = self.sites.labels', 'return list({(label1, label2) for label1 in labels for label2 in labels})']:
+        raise Unsupported('site_pair_count_matrix_labels: ' + ' | '.join(lb)[:300])
+    # what is appended to coll_jumps in _compute: the (start, destination) sites of the two events of a collective pair
+    comp = ast.unparse(_find_func(tree, 'Collective', '_compute'))
+    if "coll_jumps.append(((event_i['start site'], event_i['destination site']), (event_j['start site'], event_j['destination site'])))" not in comp:
+        raise Unsupported('_compute: what is appended to coll_jumps')
+
+
+def gen_coll_matrix():
+    os.makedirs(GEN, exist_ok=True)
+    try:
+        coll_matrix_unit()
+    except Unsupported as e:
+        return ('collmatrix', False, f'translator: unsupported {e}')
+    src = '(* GENERATED (static text harness/collmatrix_proof.v.txt, emitted only when the statements of Collective.site_pair_count_matrix,\n' \
+          '   site_pair_count_matrix_labels and the coll_jumps bookkeeping of _compute are the ones it transcribes) -- do not edit *)\n' \
+          + open(os.path.join(_V, 'harness', 'collmatrix_proof.v.txt')).read()
+    open(os.path.join(GEN, 'CollMatrix.v'), 'w').write(src)
+    ok, log = compile_gen('CollMatrix.v')
+    return ('collmatrix: statements of Collective.site_pair_count_matrix (labels of the four sites, index of the two label pairs, += 1), of '
+            'site_pair_count_matrix_labels (every pair of labels once) and of the coll_jumps bookkeeping; the matrix counts each collective pair in exactly the cell of '
+            'its two label pairs and sums to the number of collective pairs (gen_matrix_total)', ok, 'ok' if ok else log[-800:])
